@@ -168,5 +168,18 @@ ExportSpec == Init /\ [][NextExport]_vars
 ExportScenario == (hist = <<>>) => PrintT(<<"SCENARIO", ToJson([programs |-> StampedPrograms, cfg |-> CfgRec, est |-> EstOf])>>)
 ExportBehaviour == Settled => PrintT(<<"REPLAY", ToJson(hist)>>)
 
+\* export of the behaviours that exhibit a recorded defect (TLC counterexample -> deterministic replay on the real code)
+HasFinding(f) == \E v \in bad : v.finding = f
+FirstTime(f) == HasFinding(f) /\ last.site # "" /\ hist # <<>>
+ExportD11 == HasFinding("D11") => PrintT(<<"REPLAY", ToJson(hist)>>)
+ExportD12 == HasFinding("D12") => PrintT(<<"REPLAY", ToJson(hist)>>)
+ExportD13 == HasFinding("D13") => PrintT(<<"REPLAY", ToJson(hist)>>)
+ExportD14 == HasFinding("D14") => PrintT(<<"REPLAY", ToJson(hist)>>)
+NextUntil(f) == ~HasFinding(f) /\ Next
+SpecUntilD11 == Init /\ [][NextUntil("D11")]_vars
+SpecUntilD12 == Init /\ [][NextUntil("D12")]_vars
+SpecUntilD13 == Init /\ [][NextUntil("D13")]_vars
+SpecUntilD14 == Init /\ [][NextUntil("D14")]_vars
+
 \* hide nothing: the ghosts are part of the state
 =============================================================================
